@@ -403,22 +403,16 @@ def forms(model, rep):
 def res_rules(model, rep):
     RNM = R + 'renamer'
     na = model.func(RNM + '.NameAssigner.__call__')
-    F = Facts(na.node)
-    top = na.node.body
-    idx_pin = idx_loop = None
-    for i, s in enumerate(top):
-        if isinstance(s, ast.For) and 'all_bindings' in src(s.iter) and 'reserve_name(binding.reserved' in src(s):
-            idx_pin = i
-            inner = [c for c in ast.walk(s) if isinstance(c, ast.Call) and src(c.func) == 'reserve_name']
-            facts = F.facts_at(inner[0]) if inner else None
-            base = F.facts_at(s) or frozenset()
-            extra = [k for (k, p) in (facts or ()) if not k.startswith('<') and (k, p) not in base]
-            guard_ok = facts is not None and ('binding.reserved is None', False) in facts and extra == ['binding.reserved is None']
-            scope_ok = inner and src(inner[0].args[1]) in ('scope', 'reservation_scope(namespace, binding)')
-        if isinstance(s, ast.For) and 'sorted_bindings' in src(s.iter):
-            idx_loop = i
-    rep.check(idx_pin is not None and idx_loop is not None and idx_pin < idx_loop and guard_ok and scope_ok, 'C03.RES', na.loc(), 'pinned names reserved in their whole reservation scope before any new name is chosen',
-              'reservation loop precedes the assignment loop', 'pinned names are not all reserved before new names are handed out: a new name can collide with a name that must stay', key='C03.RES|pins-first')
+    # the assignment loop run with the repository's own reservation code on a small world of namespaces (assign_enum.reservation_world)
+    from . import assign_enum
+    problems, final = assign_enum.reservation_world(model)
+    pin_p = [p_ for p_ in problems if 'pinned' in p_ or 'preserved' in p_]
+    same_p = [p_ for p_ in problems if 'both end up' in p_]
+    res_p = [p_ for p_ in problems if 'is not reserved' in p_]
+    rep.check(not pin_p, 'C03.RES', na.loc(), 'names that must stay are never handed out (candidate stream starts with them): %s' % final, 'pinned names reserved in their whole scope before any new name is chosen',
+              '; '.join(pin_p[:2]), key='C03.RES|pins-first')
+    rep.check(not same_p, 'C03.RES', na.loc(), 'bindings with overlapping scopes end up with distinct names', 'distinct', '; '.join(same_p[:2]), key='C03.RES|distinct')
+    rep.check(not res_p, 'C03.RES', na.loc(), 'the name a binding ends up with is reserved in every namespace of its scope', 'reserved', '; '.join(res_p[:2]), key='C03.RES|reserve-final')
     # is_available is universal over the scope
     an = RNM + '.NameAssigner'
     for taken_in, want in ((None, True), (0, False), (1, False)):
@@ -430,26 +424,6 @@ def res_rules(model, rep):
         vals = {o[1] for (o, _e, _u) in res if o[0] == 'return'}
         rep.check(vals == {want}, 'C03.RES', model.method(an, 'is_available').loc(), 'is_available with the name taken in %s -> %s' % ('no namespace' if taken_in is None else 'namespace #%d of 2' % taken_in, sorted(map(str, vals))),
                   'universal over the reservation scope', 'is_available answers %s when the name is taken in %s' % (sorted(map(str, vals)), 'no namespace' if taken_in is None else 'one namespace of the scope'), key='C03.RES|is_available|%s' % taken_in)
-    # available_name returns only available candidates
-    av = model.method(an, 'available_name')
-    AF = Facts(av.node)
-    for (ret, facts) in AF.returns:
-        if isinstance(ret.value, ast.Constant) and ret.value.value is None:
-            continue
-        ok = any(p and k.startswith('self.is_available(') and src(ret.value) in k for (k, p) in facts)
-        rep.check(ok, 'C03.RES', av.loc(ret), 'return ' + src(ret.value), 'only under is_available(that name, scope)', 'a candidate is returned without having been tested against the reservation scope', key='C03.RES|available_name')
-    # final name always reserved
-    loop = top[idx_loop] if idx_loop is not None else None
-    ok = False
-    if loop is not None:
-        for c in ast.walk(loop):
-            if isinstance(c, ast.Call) and src(c.func) == 'reserve_name' and src(c.args[0]) == 'binding.name':
-                facts = F.facts_at(c)
-                base = F.facts_at(loop) or frozenset()
-                cond = [k for (k, p) in (facts or ()) if not k.startswith('<') and (k, p) not in base]
-                ok = facts is not None and cond == ['binding.name is None'] and src(c.args[1]) == 'scope' and not any(isinstance(x, (ast.Continue, ast.Break)) for x in ast.walk(loop))
-    rep.check(ok, 'C03.RES', na.loc(loop) if loop is not None else na.loc(), 'the name a binding ends up with is reserved in its whole scope on every path of the loop', 'unconditional reserve_name(binding.name, scope)',
-              'some path through the assignment loop leaves the final name of a binding unreserved: a later binding can be given the same name in an overlapping scope', key='C03.RES|reserve-final')
     # reservation_scope on a chain
     rs = model.func(RNM + '.reservation_scope')
     M = Obj('Module')
@@ -473,55 +447,63 @@ def res_rules(model, rep):
             got = {id(x) for x in o[1]}
             rep.check(got == want, 'C03.RES', rs.loc(), 'reservation_scope: %s -> %d namespaces' % (label, len(got)), 'binding namespace + every namespace between it and each reference',
                       'reservation_scope(%s) returns %d namespaces, expected %d: a namespace in which the name is visible is not protected' % (label, len(got), len(want)), key='C03.RES|scope|' + label)
+    # the assignment loop evaluated (shared with C04.GLOB / C17.GATE): a binding whose own name has been handed to a busier binding must be renamed,
+    # otherwise two bindings that are live in one scope carry the same name
+    from . import assign_enum
+    lost = []
+    n_forced = 0
+    for sc, obs in assign_enum.enumerate_loop(model):
+        if sc['profitable'] or not assign_enum.expect_rename(sc):
+            continue
+        n_forced += 1
+        for o in obs:
+            if not o['renamed_to']:
+                lost.append('%s binding keeps its name although that name was given to another binding in its scope (%s)' % (o['where'], ', '.join('%s=%s' % kv for kv in sorted(sc.items()))))
+    rep.check(not lost, 'C03.RES', 'src/python_minifier/rename/renamer.py', 'assignment loop: original name already taken, renaming not profitable (%d scenarios)' % n_forced,
+              'the binding is renamed anyway', '; '.join(lost[:2]), key='C03.RES|forced-rename', cells=2 * n_forced)
     rep.floor('C03.RES', 9)
 
 
 # ---------------------------------------------------------------------- FLOW
 def flow(model, rep):
-    NG = R + 'name_generator'
-    nf = model.func(NG + '.name_filter')
-    stream = ['a', 'if', 'len', 'b', 'print', 'def', 'None', 'c', 'id', 'as', 'match', 'd']
-    kwmod = Obj('module', kwlist=list(keyword.kwlist), softkwlist=list(getattr(keyword, 'softkwlist', [])))
-    hooks = {'name_generator': lambda I, e, args, kw, env: list(stream), 'dir': lambda I, e, args, kw, env: dir(builtins)}
-    I = Interp(model, NG, hooks)
-    I.globals['keyword'] = kwmod
-    res = I.explore(lambda: I.call_function(nf.qual, []))
-    for (o, ev, unk) in res:
-        if o[0] != 'return' or o[1] is TOP:
-            raise AnalysisError('UNDECIDED: name_filter -> %s %s' % (o, unk[:3]))
-        got = list(o[1])
-        want = [n for n in stream if n not in keyword.kwlist and n not in dir(builtins)]
-        rep.check(got == want, 'C03.FLOW', nf.loc(), 'name_filter over %s -> %s' % (stream, got), 'keywords and builtins removed, order kept',
-                  'the name stream yields %s: %s would be handed out as new names' % (got, sorted(set(got) - set(want))), key='C03.FLOW|filter')
-    # the assigner draws from name_filter()
-    init = model.func(R + 'renamer.NameAssigner.__init__')
-    ok = any(isinstance(n, ast.Assign) and src(n.targets[0]) == 'self.name_generator' and 'name_filter()' in src(n.value) for n in walk_own(init.node))
-    it = model.func(R + 'renamer.NameAssigner.iter_names')
-    ok2 = any(isinstance(c.func, ast.Name) and c.func.id == 'next' and src(c.args[0]) == 'self.name_generator' for c in calls(it.node))
-    av = model.func(R + 'renamer.NameAssigner.available_name')
-    ok3 = any(isinstance(n, ast.For) and src(n.iter) == 'self.iter_names()' for n in walk_own(av.node))
-    rn = model.func(R + 'renamer.rename')
-    ok4 = any(isinstance(c.func, ast.Call) and src(c.func) == 'NameAssigner()' for c in calls(rn.node))
-    rep.check(ok and ok2 and ok3 and ok4, 'C03.FLOW', init.loc(), 'candidate names: rename() -> NameAssigner() -> name_filter() -> iter_names -> available_name', 'default generator is the filtered stream',
-              'the assigner no longer draws its candidates from the filtered name stream', key='C03.FLOW|wiring')
-    # name_generator only produces identifiers starting with a letter
-    ng = model.func(NG + '.name_generator')
-    hooks = {}
-    I = Interp(model, NG, hooks)
-    I.globals['string'] = Obj('module', ascii_uppercase='AB', ascii_lowercase='ab', digits='01')
-    I.globals['itertools'] = Obj('module')
-    hooks['itertools.count'] = lambda I_, e, args, kw, env: [1]
-    hooks['itertools.product'] = lambda I_, e, args, kw, env: [tuple(x) for x in __import__('itertools').product(args[0], repeat=kw.get('repeat', 1))]
-    res = I.explore(lambda: I.call_function(ng.qual, []))
-    for (o, ev, unk) in res:
-        if o[0] != 'return' or o[1] is TOP:
-            raise AnalysisError('UNDECIDED: name_generator -> %s %s' % (o, unk[:3]))
-        names = list(o[1])
-        bad = [n for n in names if not re.match(r'^[A-Za-z][A-Za-z0-9_]*$', n)]
-        dup = len(names) != len(set(names))
-        rep.check(not bad and not dup and len(names) > 4, 'C03.FLOW', ng.loc(), 'name_generator over a reduced alphabet -> %d names (%s...)' % (len(names), names[:6]), 'identifiers, no duplicates',
-                  'name generator yields invalid or duplicate identifiers: %s' % (bad[:5] or 'duplicates'), key='C03.FLOW|generator')
-    rep.floor('C03.FLOW', 3)
+    """The stream of candidate names, evaluated lazily as the assigner sees it: NameAssigner() is constructed for real and its iter_names() is
+    advanced; the names must be valid identifiers, distinct, never a keyword and never the name of a builtin (a new name that shadows `len`
+    or `print` changes what other code in the scope resolves to)."""
+    N = 3200 if rep.tier != 'thorough' else 12000     # past the end of the two-character names
+    NA = R + 'renamer.NameAssigner'
+    hooks = {'dir': lambda I, e, args, kw, env: dir(builtins)}
+    I = Interp(model, R + 'renamer', hooks)
+    I.MAX_PATHS = 4
+
+    def thunk():
+        a = I.construct(ClassRef('NameAssigner', NA), [], {})
+        g = I.call_method(NA, 'iter_names', a, [])
+        first = [next(g) for _ in range(N)]
+        # a second reader of the same assigner starts from the names already generated
+        g2 = I.call_method(NA, 'iter_names', a, [])
+        again = [next(g2) for _ in range(50)]
+        return first, again
+    res = I.explore(thunk)
+    if len(res) != 1 or res[0][0][0] != 'return':
+        raise AnalysisError('UNDECIDED: NameAssigner().iter_names() -> %s %s' % ([r[0] for r in res][:2], res[0][2][:3]))
+    names, again = res[0][0][1]
+    fi = model.func(NA + '.iter_names')
+    if any(not isinstance(n, str) for n in names):
+        raise AnalysisError('UNDECIDED: the name stream yields %r' % ([n for n in names if not isinstance(n, str)][:3],))
+    bad_id = [n for n in names if not re.match(r'^[A-Za-z_][A-Za-z0-9_]*$', n)]
+    kw = [n for n in names if n in keyword.kwlist or n in getattr(keyword, 'softkwlist', [])]
+    blt = [n for n in names if n in dir(builtins)]
+    dup = sorted({n for n in names if names.count(n) > 1})[:5] if len(set(names)) != len(names) else []
+    rep.check(not bad_id, 'C03.FLOW', fi.loc(), 'first %d candidate names (%s ... %s)' % (N, ' '.join(names[:4]), ' '.join(names[-2:])), 'all are identifiers',
+              'the name stream yields %s, which are not identifiers' % bad_id[:5], key='C03.FLOW|identifiers', cells=N)
+    rep.check(not kw and not blt, 'C03.FLOW', fi.loc(), 'candidate names vs keywords and builtins', 'none is a keyword or the name of a builtin',
+              'the name stream yields %s: they would be handed out as new names (keywords do not compile, builtin names capture the builtin)' % (kw + blt)[:8], key='C03.FLOW|filter', cells=N)
+    rep.check(not dup, 'C03.FLOW', fi.loc(), 'candidate names are distinct', 'no name is generated twice', 'the name stream repeats %s' % dup, key='C03.FLOW|generator', cells=N)
+    rep.check(again == names[:50], 'C03.FLOW', fi.loc(), 'a second pass over the assigner\'s names', 'starts again from the shortest names', 'a second reader of the name stream does not see the names already generated: %s' % again[:5],
+              key='C03.FLOW|wiring')
+    ordered = all(len(names[i_]) <= len(names[i_ + 1]) for i_ in range(len(names) - 1))
+    rep.check(ordered, 'C03.FLOW', fi.loc(), 'candidate names by length', 'shortest first', 'names are not generated shortest first', key='C03.FLOW|order')
+    rep.floor('C03.FLOW', 5)
 
 
 # ---------------------------------------------------------------------- RESOLVE: binder + resolver vs the interpreter's symbol tables
